@@ -58,6 +58,19 @@ def fit_class(weights):
     return _classes[key]
 
 
+_cclasses = {}
+
+
+def cfit_class(weights):
+    """F39: a fitness class derived from base.ConstrainedFitness (feasible, evaluated fitnesses: a violation record
+    that is absent or all-false).  ConstrainedFitness defines __eq__; before the repair that removed the inherited
+    __hash__ and sortNondominated, which keys a dictionary on fitness objects, raised TypeError."""
+    key = tuple(weights)
+    if key not in _cclasses:
+        _cclasses[key] = type("CFit", (base.ConstrainedFitness,), {"weights": tuple(float(w) for w in weights)})
+    return _cclasses[key]
+
+
 class Indiv(list):
     __slots__ = ("fitness",)
 
@@ -77,6 +90,14 @@ def build(d):
         for vals in d["pop"]:
             ind = Indiv(xfloat(v) for v in vals)
             ind.fitness = F(tuple(xfloat(v) for v in vals))
+            pop.append(ind)
+        return pop
+    if d.get("constrained"):
+        CF = cfit_class(w)
+        for j, vals in enumerate(d["pop"]):
+            ind = Indiv(float(Fr(v)) for v in vals)
+            cv = None if (d["constrained"] == "none" or (d["constrained"] == "mixed" and j % 2)) else [False] * (1 + j % 3)
+            ind.fitness = CF(tuple(float(Fr(v)) for v in vals), cv)
             pop.append(ind)
         return pop
     for vals in d["pop"]:
@@ -494,7 +515,20 @@ def extreme_cases(tier, rng, mult):
         yield dict(case(w, pop, sorted(set([0, 1, n // 2, n, n + 1])), "extreme/m=%d" % m), extreme=1)
 
 
+def constrained_cases(tier, rng, mult):
+    """F39: populations of feasible evaluated ConstrainedFitness individuals through both procedures"""
+    count = int((30 if tier != "thorough" else 400) * mult)
+    for it in range(count):
+        m = rng.choice([2, 2, 3, 4])
+        n = rng.choice([1, 2, 3, 4, 5, 6, 8])
+        pop = random_pop(rng, n, m, rng.choice(["grid", "dup", "chain"])) if False else [[rng.randrange(4) for _ in range(m)] for _ in range(n)]
+        yield dict(case(rand_weights(rng, m), pop, sorted(set([0, 1, n // 2, n, n + 1])), "constrained/m=%d" % m),
+                   constrained=["false", "none", "mixed"][it % 3])
+
+
 def generate(tier, rng, mult):
+    for c in constrained_cases(tier, rng, mult):
+        yield c
     # F37 stream first: it carries the clause "both procedures return the ranking" at extreme magnitudes
     for c in extreme_cases(tier, rng, mult):
         yield c
